@@ -143,6 +143,17 @@ func (s *scriptServer) handle(w http.ResponseWriter, r *http.Request) {
 	case '9':
 		w.Header().Set("Retry-After", "1")
 		s.fail(w, 429, "Throttling")
+	case 'T':
+		// no answer: the request is held until the client gives up (its own time-out, 400 ms in such cases) and closes
+		select {
+		case <-r.Context().Done():
+		case <-time.After(3 * time.Second):
+		}
+		if hj, ok := w.(http.Hijacker); ok {
+			if conn, _, err := hj.Hijack(); err == nil {
+				_ = conn.Close()
+			}
+		}
 	case 'H':
 		if hj, ok := w.(http.Hijacker); ok {
 			if conn, _, err := hj.Hijack(); err == nil {
@@ -259,6 +270,12 @@ func (c *beCase) build(url string) (gostatsd.Backend, int, error) {
 	v := viper.New()
 	lg := quietLogger()
 	v.Set("transport.default.client-timeout", 5*time.Second)
+	for _, w := range c.scripts {
+		if strings.Contains(w, "T") {
+			// an attempt that is never answered ends by the client's own time-out while the flush is still wanted
+			v.Set("transport.default.client-timeout", 400*time.Millisecond)
+		}
+	}
 	pool := transport.NewTransportPool(lg, v)
 	k := len(c.scripts)
 	switch c.backend {
@@ -477,6 +494,11 @@ func runSock(its [][]string) string {
 		network = "udp"
 	}
 	addr := freePort(network)
+	if scenario == "edge-down-cancel" {
+		// a UDP "connection" to a port nobody listens on succeeds and swallows every packet: the relay is only
+		// unable to connect (and so leaves the packets of a flush in their channel) when the dial itself fails
+		addr = "127.0.0.1:99999"
+	}
 	var closer io.Closer
 	listen := func() {
 		if network == "udp" {
@@ -543,14 +565,38 @@ func runSock(its [][]string) string {
 		cancel()
 	}
 	rec := newRecorder()
+	var prodDone chan struct{} // closed when a SendMetricsAsync started on its own goroutine has returned
 	if scenario == "big" {
 		// one flush of "many" packets: 16000 gauges of ~135 bytes = about 1500 datagrams of 1472 bytes
 		backend.SendMetricsAsync(ctx, bigGaugeMap(16000), rec.cb)
 	} else if scenario == "edge-down-cancel" {
 		// nothing listens; the flush renders to one packet more than the relay's channel of packet buffers holds
 		// (1000), so the producer is parked handing over its very last packet when the flush is cancelled
-		go backend.SendMetricsAsync(ctx, packetGaugeMap(1001), rec.cb)
-		time.Sleep(400 * time.Millisecond)
+		// the producer hands 1000 packets into the channel and parks on the last one (SendMetricsAsync is synchronous
+		// in its rendering); cancellation comes once it is at rest there
+		var pgid atomic.Int64
+		prodDone = make(chan struct{})
+		go func() {
+			defer close(prodDone)
+			pgid.Store(goid())
+			backend.SendMetricsAsync(ctx, packetGaugeMap(1001), rec.cb)
+		}()
+		parked := 0
+		for t0 := time.Now(); time.Since(t0) < 5*time.Second && parked < 3; time.Sleep(20 * time.Millisecond) {
+			gid := pgid.Load()
+			if gid == 0 {
+				continue
+			}
+			st, _ := goroutineInfo(gid)
+			if st == "" {
+				break // the producer has returned: nothing to cancel in the middle of
+			}
+			if st == "chan send" || st == "select" {
+				parked++
+			} else {
+				parked = 0
+			}
+		}
 		cancel()
 	} else {
 		backend.SendMetricsAsync(ctx, gaugeMap(3), rec.cb)
@@ -577,6 +623,13 @@ func runSock(its [][]string) string {
 	case <-runDone:
 	case <-time.After(deadline):
 		return "HANG run"
+	}
+	if prodDone != nil {
+		// the producer unwinds after the callback: a crash on that path must happen before this process reports
+		select {
+		case <-prodDone:
+		case <-time.After(5 * time.Second):
+		}
 	}
 	return rec.result(scenario == "precancel")
 }
